@@ -1425,40 +1425,85 @@ fn parse_vars(exprs: &[&Vec<SExpr>], _lsp_hints: &mut LspHints) -> Result<HashMa
 
 /// Variables are resolved when they are used, and a variable may refer to other variables.
 /// A variable that refers to itself, directly or through other variables, can never be resolved.
+/// Resolving also recurses once per variable in a chain of references, so chains are bounded.
 fn check_vars_are_not_cyclic(vars: &HashMap<String, SExpr>) -> Result<()> {
+    const MAX_VAR_NESTING: usize = 128;
     fn collect_var_refs<'a>(expr: &'a SExpr, refs: &mut Vec<&'a str>) {
         match expr {
             SExpr::Atom(a) => {
-                if let Some(name) = a.t.strip_prefix('$') {
+                // Within a macro, modifier prefixes can precede the variable: `S-$var`.
+                let unprefixed = parse_mod_prefix(&a.t).map(|(_, rest)| rest);
+                if let Some(name) =
+                    (a.t.strip_prefix('$')).or_else(|| unprefixed.ok()?.strip_prefix('$'))
+                {
                     refs.push(name);
                 }
             }
             SExpr::List(l) => l.t.iter().for_each(|e| collect_var_refs(e, refs)),
         }
     }
-    let mut unresolved: Vec<(&String, &SExpr, Vec<&str>)> = vars
+    enum Visit {
+        InProgress,
+        /// Length of the longest chain of references that starts at the variable.
+        Done(usize),
+    }
+    let var_refs: HashMap<&str, (&SExpr, Vec<&str>)> = vars
         .iter()
         .map(|(name, expr)| {
             let mut refs = vec![];
             collect_var_refs(expr, &mut refs);
-            (name, expr, refs)
+            refs.retain(|r| vars.contains_key(*r));
+            (name.as_str(), (expr, refs))
         })
         .collect();
-    // Repeatedly drop the variables that only refer to things that can be resolved.
-    // What remains refers to itself, or to a variable that does.
-    loop {
-        let num_unresolved = unresolved.len();
-        let pending: HashSet<&str> = unresolved.iter().map(|(name, ..)| name.as_str()).collect();
-        unresolved.retain(|(_, _, refs)| refs.iter().any(|r| pending.contains(r)));
-        if unresolved.len() == num_unresolved {
-            break;
+    let mut names: Vec<&str> = var_refs.keys().copied().collect();
+    names.sort_unstable();
+    let mut visits: HashMap<&str, Visit> = HashMap::default();
+    // Depth-first walk over the references, with an explicit stack: the chains can be long.
+    let mut stack: Vec<(&str, &SExpr, std::slice::Iter<&str>)> = vec![];
+    for root in names {
+        if visits.contains_key(root) {
+            continue;
         }
-    }
-    if let Some((name, expr, _)) = unresolved.iter().min_by_key(|(name, ..)| name.as_str()) {
-        bail_expr!(
-            expr,
-            "The variable {name} refers to itself, directly or through other variables"
-        );
+        if let Some((expr, refs)) = var_refs.get(root) {
+            visits.insert(root, Visit::InProgress);
+            stack.push((root, expr, refs.iter()));
+        }
+        while let Some((name, expr, unvisited_refs)) = stack.last_mut() {
+            match unvisited_refs.next() {
+                Some(referenced) => match (visits.get(referenced), var_refs.get(referenced)) {
+                    (None, Some((ref_expr, ref_refs))) => {
+                        visits.insert(referenced, Visit::InProgress);
+                        stack.push((referenced, ref_expr, ref_refs.iter()));
+                    }
+                    (Some(Visit::InProgress), _) => bail_expr!(
+                        expr,
+                        "The variable {name} refers to itself, directly or through other variables"
+                    ),
+                    _ => {}
+                },
+                None => {
+                    let longest_ref_chain = var_refs
+                        .get(name)
+                        .into_iter()
+                        .flat_map(|(_, refs)| refs.iter())
+                        .filter_map(|r| match visits.get(r) {
+                            Some(Visit::Done(len)) => Some(*len),
+                            _ => None,
+                        })
+                        .max()
+                        .unwrap_or(0);
+                    if longest_ref_chain >= MAX_VAR_NESTING {
+                        bail_expr!(
+                            expr,
+                            "The variable {name} refers to other variables more than {MAX_VAR_NESTING} levels deep"
+                        );
+                    }
+                    visits.insert(name, Visit::Done(longest_ref_chain + 1));
+                    stack.pop();
+                }
+            }
+        }
     }
     Ok(())
 }
